@@ -102,6 +102,10 @@ def stft_histories(run, tier, rng):
                        "event": line, "clause": clause, "trace": next(t for t in traces if t["tid"] == tid_)})
     run.sample(traces[7])
     run.extra["stft_histories"] = len(traces)
+    if not rejected:
+        def corrupt(t):
+            t["events"][0]["st"] = not t["events"][0]["st"]
+        common.assert_binding_live(run, "TraceStftDef", "TraceStftDef.cfg", traces[7], corrupt, "started flag of the first event flipped")
 
 
 def si_histories(run, tier, rng):
